@@ -36,7 +36,7 @@ def work(task):
 
 def program_family(run: Run):
     """quick: all programs with <=3 statement nodes + every size-4 shape over a reduced alphabet + a seed-chosen
-    sixteenth of the full-alphabet size-4 programs; thorough: all of size <=4 + size-5 programs containing a while and an await."""
+    half of the full-alphabet size-4 programs; thorough: all of size <=4 + size-5 programs containing a while and an await."""
     for size in (1, 2, 3):
         yield from coro.programs(size)
     if not run.thorough:
@@ -45,11 +45,11 @@ def program_family(run: Run):
         for p in coro.programs(4, conds=("i0",), awaits=("i1", "true"), calls=(1,)):
             seen.add(repr(p))
             yield p
-        # ... plus a seed-chosen sixteenth of the full-alphabet size-4 programs
+        # ... plus a seed-chosen half of the full-alphabet size-4 programs
         rng = random.Random(run.seed)
-        pick = rng.randrange(16)
+        pick = rng.randrange(2)
         for i, p in enumerate(coro.programs(4, calls=(0, 1))):
-            if i % 16 == pick and repr(p) not in seen:
+            if i % 2 == pick and repr(p) not in seen:
                 yield p
     else:
         yield from coro.programs(4)
